@@ -9,17 +9,17 @@ PROPS = [json.loads(l)["id"] for l in open(os.path.join(HERE, "properties.jsonl"
 CHECKS = {
  "C01": ("model_checking",
          "bounded-exhaustive small-scope enumeration of (message type, value, construction route) states with encode/decode/re-encode edges executed on the real codec",
-         "All single-unit message types (every field kind x cardinality) with full boundary alphabets, all unordered pairs of units with reduced alphabets and a recursive type to depth 2/3, each built by 4 routes and pushed through bytes/parse/bytes; equality, oneof selection, None-ness, nested presence and byte stability are checked on every case. Exhaustive within the stated alphabets, silent about values outside them.",
+         "All single-unit message types (every field kind x cardinality) with full boundary alphabets, all unordered pairs of units with reduced alphabets and a recursive type to depth 2/3, each built by 4 routes (plus fresh-instance routes for empty messages in optional/oneof/repeated/map positions and a 'lazy' route that only reads sub-messages and never assigns them back) and pushed through bytes/parse/bytes; equality, oneof selection, None-ness, nested presence and byte stability are checked on every case. Exhaustive within the stated alphabets, silent about values outside them.",
          "trusts the abstract value model in vf/core/absval.py (cross-checked on every case against google.protobuf) and the value alphabets being branch-complete for the per-field interpreter",
          "DESIGN.md §4 C01"),
  "C02": ("model_checking",
          "bounded-exhaustive enumeration of (type, value) states in both directions against google.protobuf, plus breadth-first enumeration of every re-encoding reachable with <=D spec-level rewrite operators (legality decided by the reference decoder)",
-         "Every universe case is encoded by betterproto and decoded by the reference and vice versa; for every single-unit type and value every alternative encoding within D rewrite operators (all permutations, packed/unpacked, every 2/3-way chunk split, mixed, non-minimal tag/length/value varints, duplicated singular scalars, earlier oneof siblings, unknown records at every gap, the same inside nested messages and map entries) that the reference accepts as the same message is decoded by betterproto and compared.",
+         "Every universe case is encoded by betterproto and decoded by the reference and vice versa; for every single-unit type and value every alternative encoding within D rewrite operators (all permutations, packed/unpacked, every 2/3-way chunk split, mixed, non-minimal tag/length/value varints, 32-bit kinds carried in longer varints (missing sign extension, bits above bit 31, non-0/1 bools), duplicated singular scalars, earlier oneof siblings, unknown records at every gap, the same inside nested messages and map entries) that the reference accepts as the same message is decoded by betterproto and compared.",
          "trusts google.protobuf (upb) as the reference decoder and the rewrite operators' completeness for the property's list of legal alternatives",
          "DESIGN.md §4 C02"),
  "C09": ("model_checking",
          "bounded-exhaustive small-scope enumeration of (type, value, route) states; len/dump/delimited-dump edges compared with bytes() and the wire model's varint",
-         "Same universe as C01 plus messages decoded with unknown fields of every wire type; on every state len(m), dump(), dump(SIZE_DELIMITED) and SerializeToString are compared with bytes(m).",
+         "Same universe as C01 plus messages decoded with unknown fields of every wire type; on every state len(m), dump(), dump(SIZE_DELIMITED) (into BytesIO and into a pre-filled write-only stream) and SerializeToString are compared with bytes(m); also after in-place growth following a first len()/dump.",
          "trusts the wire model's canonical varint (cross-checked against the reference in C16)",
          "DESIGN.md §4 C09"),
  "C16": ("model_checking",
@@ -29,7 +29,7 @@ CHECKS = {
          "DESIGN.md §4 C16"),
  "C08": ("model_checking",
          "exhaustive enumeration of (newer schema, value, every subset of retained fields) states and of every sequence of <=2 unknown records at every gap, each decoded/re-encoded/decoded on the real codec and by google.protobuf",
-         "Three five-field newer schemas spanning all wire types, packed, map, oneof, optional, nested and enum fields; all 32 older schemas of each; all reduced-alphabet values; plus all unknown-record sequences of length <=2 (6 field numbers x 4 wire types x payload shapes) at every gap of a known encoding. The unknown-record alphabet includes non-minimal tag/length/value encodings. Checks that known fields are undisturbed, unknown records are re-emitted byte-for-byte in order, the size-bounded load path gives the same result, and the newer reader and the reference recover the original message.",
+         "Three five-field newer schemas spanning all wire types, packed, map, oneof, optional, nested and enum fields; all 32 older schemas of each; all reduced-alphabet values; plus all unknown-record sequences of length <=2 (6 field numbers x 4 wire types x payload shapes) at every gap of a known encoding. The unknown-record alphabet includes non-minimal tag/length/value encodings. Checks that known fields are undisturbed, unknown records are re-emitted byte-for-byte in order, the size-bounded load path gives the same result, and the newer reader and the reference recover the original message. Plus a field-number sweep (an unknown record of every number 1..70000 / 600000 and every 2^k boundary), nested-type evolution, and one instance decoding two inputs (24x24 pairs, parse/parse and two delimited loads) against the reference's MergeFromString.",
          "trusts the wire model's tokenizer (validated against the reference on every case)",
          "DESIGN.md §4 C08"),
  "C10": ("fault_enumeration",
@@ -39,37 +39,37 @@ CHECKS = {
          "DESIGN.md §4 C10"),
  "C17": ("fault_enumeration",
          "complete enumeration of fault positions on valid encodings of every field kind x cardinality (truncations, tag/length byte corruptions, wire-type substitutions, groups, length perturbations, field 0) and of all short byte strings, judged by a schema-aware wire model and google.protobuf",
-         "For three values of every single-unit type: every truncation point, every tag and length byte x {8 bit flips, 00, 7f, 80, ff}, a well-formed record of every non-fitting wire type before/after, groups, declared-length perturbations, field number 0; plus all byte strings up to length 2 (3 thorough) against 6 classes. Decoding must terminate; a returned message must be type-correct and re-encodable; inputs the model and the reference both call malformed must be rejected; mismatched wire types must be kept as unknown fields without altering known ones.",
+         "For three values of every single-unit type: every truncation point, every tag and length byte x {8 bit flips, 00, 7f, 80, ff}, a well-formed record of every non-fitting wire type before/after, groups, declared-length perturbations, ragged packed payloads, field number 0; truncation of payloads of 2^k-1..2^k+100 bytes (k in 7,14,16,17) at boundary windows; plus all byte strings up to length 2 (3 thorough) against 6 classes. Decoding must terminate; a returned message must be type-correct and re-encodable; inputs the model and the reference both call malformed must be rejected; mismatched wire types must be kept as unknown fields without altering known ones.",
          "the reference decoder is the arbiter of malformedness where it is more lenient than the wire model (e.g. inside skipped groups); agreement matrix is recorded in the evidence",
          "DESIGN.md §4 C17"),
  "C07": ("model_checking",
          "explicit-state breadth-first search to a fixpoint over the complete internal state of a real message under a finite operation alphabet, against a last-writer-wins reference model",
-         "From every constructor (incl. the illegal two-member one) every operation of the alphabet (set each member to default/non-default, plain field, parse of every 0..2 member records in every order into the live instance, instance/class from_dict, copy, deepcopy, pickle, reads) is applied in every reachable state until no new state appears; in every state which_one_of, AttributeError on siblings, the wire tokens and the to_dict keys are compared with the model; after every copy/deepcopy/pickle edge each member is assigned on the copy (and on the original) and the other message must be unaffected. Covers all finite histories over the alphabet.",
+         "From every constructor (incl. the illegal two-member one) every operation of the alphabet (set each member to default/non-default, plain field, parse of every 0..2 member records in every order into the live instance, instance/class from_dict, copy, deepcopy, pickle, reads) is applied in every reachable state until no new state appears; in every state which_one_of, AttributeError on siblings, the wire tokens and the to_dict keys are compared with the model; after every copy/deepcopy/pickle edge each member is assigned on the copy (and on the original) and the other message must be unaffected. Members: int32, string, enum, message, bool, Timestamp, Duration, wrapper in three groups. Covers all finite histories over the alphabet; on a tree that breaks the invariant the search stops after the first violating level.",
          "state key = full __dict__ (no abstraction); model = dict group -> last set member",
          "DESIGN.md §4 C07"),
  "C14": ("model_checking",
          "explicit-state breadth-first search to a fixpoint over the complete internal state of a real message; every observer and copy operation in every reachable state, edge invariant by differential replay",
-         "66 initial states (11 values x constructor / setattr / in-place / parse / parse-with-unknown-fields / from_dict) x 26 observers and copy, deepcopy, pickle, closed under composition, plus ALL observer sequences of length <=2 (3) without state merging (hidden class-level state): on every edge the observable projection (bytes, values, presence, oneof, element types) must equal that of a separate replay without the operation; copies must be equal, byte-identical and (deep copies) independent under 10 mutators.",
+         "82 initial states (13 values x constructor / setattr / in-place / parse / parse-with-unknown-fields / from_dict, plus lazily built ones whose parents were only ever read) x 26 observers and copy, deepcopy, pickle, closed under composition, plus ALL observer sequences of length <=2 (3) without state merging (hidden class-level state): on every edge the observable projection (bytes, values, presence, oneof, element types) must equal that of a separate replay without the operation; copies must be equal, byte-identical and (deep copies) independent under 10 mutators.",
          "state key = full __dict__; one message class covering nested, optional, oneof, map-of-message, repeated, Timestamp, wrapper and enum fields",
          "DESIGN.md §4 C14"),
  "C15": ("model_checking",
          "complete enumeration of a structured finite domain of timedeltas and aware datetimes (boundary seconds x boundary microseconds x sign x UTC offsets, plus every microsecond of dense windows), each compared with google.protobuf and an integer model",
-         "Every value is stored in optional and plain Timestamp/Duration fields, encoded, decoded by the reference ((seconds, nanos) must equal FromTimedelta/FromDatetime and be normalised), decoded back (identical value / same instant), mapped to JSON (must match the spec's lexical form and be read by the reference parser as the same value) and back from the reference's JSON.",
+         "Every value is stored in optional and plain Timestamp/Duration fields, encoded, decoded by the reference ((seconds, nanos) must equal FromTimedelta/FromDatetime and be normalised), decoded back (identical value / same instant), mapped to JSON (must match the spec's lexical form and be read by the reference parser as the same value) and back from the reference's JSON; RFC 3339 input with numeric offsets (singular, repeated, map value) must be read as the instant the reference reads.",
          "values outside the enumerated domain (about 3e17 microsecond values) are argued structurally: integer arithmetic without further branch points",
          "DESIGN.md §4 C15"),
  "C19": ("model_checking",
          "exhaustive enumeration of all legal proto identifiers up to length 6 (7) over {a,b,A,B,0,1,_} plus keywords, builtins and a corpus, each pushed through the naming functions and a real one-field message class",
-         "For every identifier the four pythonize_* functions must return valid non-keyword identifiers and be idempotent, and a real message class with the field named as the plugin would name it must map its camelCase key, its snake_case key and the original proto name back to the field through both forms of from_dict with the value intact.",
+         "For every identifier the four pythonize_* functions must return valid non-keyword identifiers and be idempotent, and a real message class with the field named as the plugin would name it must map its camelCase key, its snake_case key and the original proto name back to the field through both forms of from_dict with the value intact; all pairs of identifiers (length <=4 / 5) that are equal up to case and underscores are also bound as two fields of ONE message and every key must reach its own field.",
          "alphabet of 7 characters; protoc's json_name is recorded, not required (not in the property's key list)",
          "DESIGN.md §4 C19"),
  "C20": ("model_checking",
          "exhaustive enumeration of all enum definitions with 1..3 members over 6 numbers (aliases included) and of all (field position, number) pairs, against a dict model",
-         "All 258 definitions are created with the real metaclass: lookup by number/name/attribute returns the one canonical member with the declared name and number; copy/deepcopy identity; pickle; openness (try_value) and closedness (call) for undefined numbers; every mutation attempt on class and members raises. Every defined/undefined number in singular, optional, oneof, repeated and map-value position survives binary and JSON round trips in both casings.",
+         "All 258 definitions are created with the real metaclass: lookup by number/name/attribute returns the one canonical member with the declared name and number; copy/deepcopy identity; pickle; openness (try_value) and closedness (call) for undefined numbers; every mutation attempt on class and members (member names, new names, internal tables, dunder names) raises and leaves behaviour unchanged. Every defined/undefined number in singular, optional, oneof, repeated and map-value position survives binary and JSON round trips in both casings.",
          "definitions limited to 3 members over 6 numbers; plugin-generated enums are covered by C03",
          "DESIGN.md §4 C20"),
  "C04": ("model_checking",
          "bounded-exhaustive small-scope enumeration of (type, value, route) states; to_dict / json.dumps / from_dict edges over 2 casings x {dict, text} x {classmethod, instance}",
-         "Every universe case is rendered with to_dict in both casings, serialised with json.dumps, and read back through all four from_dict forms; the result must be equal to m, project to the same abstract value and encode to the same bytes.",
+         "Every universe case is rendered with to_dict in both casings, serialised with json.dumps, and read back through all four from_dict forms; the result must be equal to m, project to the same abstract value and encode to the same bytes. Single-unit, named-field, kitchen-sink and recursive types are run a second time declared with PEP 604 / builtin-generic annotations (what the plugin writes under typing.310).",
          "universe and alphabets as C01",
          "DESIGN.md §4 C04"),
  "C05": ("model_checking",
@@ -84,16 +84,16 @@ CHECKS = {
          "DESIGN.md §4 C06"),
  "C12": ("model_checking",
          "stateless depth-first exploration of all event-loop schedules (exact-asyncio semantics: FIFO iterations; continue/yield/park at driver points; release and timer firing at iteration boundaries) of small AsyncChannel configurations on the real asyncio.Queue/Task/wait_for under a virtual loop, with iterative deviation bounding",
-         "40+ configurations (1-2 senders x 1-3 items via send / send_from / async sources, 1-3 receivers via receive(), async-for and the library's ServiceStub._send_messages, closer, unbounded and bounded buffers, cancellation or timeout of one receiver at any point). The small ones are enumerated completely, the rest up to a stated number of deviations from the default schedule. Every complete execution is judged: nothing invented or duplicated, per-sender order, everything sent before close received exactly once (or obtainable by a fresh receiver after a cancellation), no stranded receiver, later sends rejected, cancellation/timeout surfacing as such, no stray exception.",
+         "40+ configurations (1-2 senders x 1-3 items via send / send_from / async sources, 1-3 receivers via receive(), async-for and the library's ServiceStub._send_messages, closer, unbounded and bounded buffers, every other item falsy, cancellation or timeout of one receiver at any point). The small ones are enumerated completely, the rest up to a stated number of deviations from the default schedule. Every complete execution is judged: nothing invented or duplicated, per-sender order, everything sent before close received exactly once (or obtainable by a fresh receiver after a cancellation), no stranded receiver, later sends rejected, cancellation/timeout surfacing as such, no stray exception.",
          "schedules a real FIFO asyncio loop cannot produce are excluded by construction; OS threads are out of scope",
          "DESIGN.md §4 C12"),
  "C03": ("translation_validation",
          "exhaustive enumeration of schemas from a grammar (every field kind x cardinality and all pairs; every structure atom alone and all pairs of atoms; 4 package depths) plus the tests/inputs corpus, each compiled by protoc + the plugin from the working tree, imported, and compared field by field with the FileDescriptorSet protoc emits (read with google.protobuf's descriptor_pb2)",
-         "Per program: plugin exit status, importability, one class per message/enum (nested included), one field per schema field with equal number, proto type, cardinality from the resolved type hints, map key/value types, oneof group, optional flag, wrapper/Timestamp/Duration mapping, resolved class identity of references, enum numbers; generated classes are additionally compared with classes built through the public field API (same metadata, same bytes), which transfers the small-scope results to generated code. The bundled descriptor / well-known-type / plugin classes are compared with descriptor.proto, plugin.proto and the WKT descriptors on every shared field.",
+         "Per program: plugin exit status, importability, every generated message class constructed / encoded / decoded / dict-converted, one class per message/enum (nested included), one field per schema field with equal number, proto type, cardinality from the resolved type hints, map key/value types, oneof group, optional flag, wrapper/Timestamp/Duration mapping, resolved class identity of references, enum numbers; generated classes are additionally compared with classes built through the public field API (same metadata, same bytes), which transfers the small-scope results to generated code. The bundled descriptor / well-known-type / plugin classes are compared with descriptor.proto, plugin.proto and the WKT descriptors on every shared field.",
          "proto3 only; ruff replaced by an identity shim; class names are located with the implementation's naming function",
          "DESIGN.md §4 C03"),
  "C13": ("exploration",
-         "exhaustive enumeration of package topologies: every ordered pair of the 15 package paths of depth 0..3 over {a,b} (each compiled alone), all packages referencing each other at once, and well-known types from every depth, compiled with the real plugin, imported, and checked by class identity",
+         "exhaustive enumeration of package topologies: every ordered pair of the 15 package paths of depth 0..3 over {a,b} (each compiled alone), 7 packages whose names are textual prefixes of a neighbour or live under google.* against 5 partners, all packages referencing each other at once, and well-known types from every depth, compiled with the real plugin, imported, and checked by class identity",
          "For every program the resolved type hint of each referring field (singular, repeated, map value, oneof member) and each rpc handler's request/reply type must BE the class generated for the target (message, nested message, enum, nested enum), a message built through the references must round-trip through the wire and JSON, referrers whose only references are rpc input/output types must work through __mapping__ and real calls, and well-known types must resolve to the bundled classes.",
          "package path alphabet {a,b}; the schedule/import order is the natural one",
          "DESIGN.md §4 C13"),
@@ -104,8 +104,8 @@ CHECKS = {
          "DESIGN.md §4 C18"),
  "C11": ("exploration",
          "exhaustive enumeration of (method, request tuple, response-stream length, source kind, handler outcome) and of all 64 stub-level/call-level timeout/deadline/metadata combinations, each executed as a real rpc through the generated stub, grpclib's in-process channel and the generated server base",
-         "Services generated by the real plugin cover all four cardinalities, re-cased method names, cross-package, nested and well-known request/response types and a second service sharing a method name. For every case exactly one handler - the right one - must run with requests equal and in order, the caller must receive the responses equal and in order, a method that is not overridden must answer UNIMPLEMENTED, a handler's GRPCError status and message must reach the caller, and the server must observe the metadata and deadline the precedence rule (call-level over stub-level) predicts.",
-         "natural asyncio schedule; deadline observed as time remaining with a 2 s tolerance",
+         "Services generated by the real plugin cover all four cardinalities, re-cased method names, cross-package, nested and well-known request/response types and a second service sharing a method name. For every case exactly one handler - the right one - must run with requests equal and in order, the caller must receive the responses equal and in order, a method that is not overridden must answer UNIMPLEMENTED, a handler's GRPCError status and message must reach the caller, and the server must observe exactly the metadata pairs (mapping, pairs, pairs with a repeated key and a -bin value) and the deadline the precedence rule (call-level over stub-level) predicts.",
+         "natural asyncio schedule; deadline observed as time remaining with a 20 s tolerance (configured deadlines 50 s .. 10000 s)",
          "DESIGN.md §4 C11"),
 }
 
